@@ -453,7 +453,11 @@ where
     S: TreeKey + TreeSerialize + TreeDeserializeOwned + Clone + PartialEq + Init,
 {
     let wire = Rc::new(RefCell::new(Wire { max_write: usize::MAX, ..Default::default() }));
-    let clk = Clk(Rc::new(RefCell::new(0)));
+    // the client's clock is a wrapping 32-bit millisecond counter that may start anywhere; the log reports the
+    // unwrapped time (start + elapsed), which is what a wrap-aware comparison of two readings amounts to
+    let t0 = sched["t0"].as_u64().unwrap_or(0);
+    let mut vnow: u64 = t0;
+    let clk = Clk(Rc::new(RefCell::new(t0 as u32)));
     let bufsize = sched["buffer"].as_u64().unwrap_or(4096) as usize;
     let mut buffer = vec![0u8; bufsize];
     let prefix: String = sched["prefix"].as_str().unwrap_or("dt/dev").to_string();
@@ -481,7 +485,8 @@ where
     let mut steps = vec![];
     let mut inflight: VecDeque<(u64, usize, Value)> = VecDeque::new();
     for st in sched["steps"].as_array().unwrap() {
-        *clk.0.borrow_mut() += st["dt"].as_u64().unwrap_or(100) as u32;
+        vnow += st["dt"].as_u64().unwrap_or(100);
+        *clk.0.borrow_mut() = vnow as u32;
         // environment actions before this update()
         if let Some(b) = st["ack"].as_bool() { br.ack = b; }
         if let Some(b) = st["suback"].as_bool() { br.suback = b; }
@@ -545,7 +550,7 @@ where
             // what the client handed to the socket before it panicked
             let packets = broker(&wire, &mut br, true);
             steps.push(json!({"before": probe_json(&pb, remaining_before), "update": upd, "api": api, "oracle": oracle, "packets": packets,
-                              "now": *clk.0.borrow(), "values": values_before}));
+                              "now": vnow, "values": values_before}));
             break;
         }
         let unread = wire.borrow().to_client.len();
@@ -566,7 +571,7 @@ where
         let pa = client.verif_probe();
         let remaining_after = client.verif_remaining();
         steps.push(json!({
-            "now": *clk.0.borrow(), "before": probe_json(&pb, remaining_before), "after": probe_json(&pa, remaining_after),
+            "now": vnow, "before": probe_json(&pb, remaining_before), "after": probe_json(&pa, remaining_after),
             "update": upd, "api": api, "packets": packets, "oracle": oracle, "changed": s != before_clone,
             "values": values_before, "reconnected": wire.borrow().connects != connects_before,
             "wire_connected": wire.borrow().connected,
